@@ -397,6 +397,8 @@ impl Solver {
             return true;
         }
         match kind.as_str() {
+            // a message with a lone `|` and apostrophes inside the string literal (what solvers print for a stray character)
+            "error-bar" => out("(error \"line 1 column 2: unexpected character '|' (in a term)\")"),
             "unknown" => out("unknown"),
             "empty-line" => out(""),
             "garbage" => out("%%garbage&&"),
